@@ -15,7 +15,7 @@
                16 * diff as in T06_corr. *)
 From TkModel Require Import Base Dec Acct Txn Journal Balance Register Round Price Time Group.
 From TkModel Require Import ReportText T05_report PriceText Regex T06_run T07_run.
-From TkModel Require MetaText Codec.
+From TkModel Require MetaText Codec Store.
 From TkSpec Require Import ReportText_spec T06_spec.
 From TkCorr Require Import C07_corr T01_corr T04_corr T05_corr T06_corr.
 Local Open Scope Z_scope.
@@ -96,6 +96,61 @@ Definition t07_files_case (c : run7) (tbl : list (list N * list N)) (files : lis
 Definition t07_files_model (c : run7) (tbl : list (list N * list N)) (files : list (list (list N) * list N))
            (ptext : option (list N)) : list (list N * list N) * list N :=
   match run7_files (t06_H tbl) c files ptext with
+  | Ok r => r
+  | Err e => ([], [69; 114; 114; 32]%N ++ Codec.show_N e)
+  end.
+
+(* ------------------------------------------------------------------ Git storage *)
+(* the world: the repository (trees of its commits as (path, kind, blob) entries, references), the blob contents,
+   the printed id and the message title of every commit (from the git command line), the selector *)
+Definition t07g_domain (c : run7) (st : run_state) : bool :=
+  t07_dom c
+  && in_domain (rs_file st) (rs_txns st)
+  && t05_sum_domain (conv_bposts (report_ctx (rs_lk st) (rc_commodity (r7_base c)) (rs_db st) (rs_txns st)) (rs_txns st))
+  && forallb (fun j => forallb (fun jp => fits (p_amount (jp_p jp)) && fits (p_txn_amount (jp_p jp))) (jt_posts j))
+             (rs_sel st)
+  && distinct_hdrs_b (rs_sel st).
+
+Definition t07g_console_case (c : run7) (gw : git_world) (gs : git_sel) (tbl : list (list N * list N))
+           (ptext : option (list N)) (ok : bool) (out : list N) : N :=
+  let H := t06_H tbl in
+  match run7g_prepare H c gw gs ptext with
+  | Err _ =>
+      t06_bits (negb ok && match out with [] => true | _ => false end) true (t07_dom c) true
+               (match out with [] => 0 | _ => 1 end)
+  | Ok st =>
+      match run7g_console H c gw gs ptext with
+      | Ok m => t06_bits (ok && text_eqb m out) true (t07g_domain c st) (run_hyp (r7_base c) st) (first_diff m out 0)
+      | Err _ => t06_bits (negb ok) true false (run_hyp (r7_base c) st) 1
+      end
+  end.
+Definition t07g_console_model (c : run7) (gw : git_world) (gs : git_sel) (tbl : list (list N * list N))
+           (ptext : option (list N)) : list N :=
+  match run7g_console (t06_H tbl) c gw gs ptext with
+  | Ok m => m
+  | Err e => [69; 114; 114; 32]%N ++ Codec.show_N e
+  end.
+
+Definition t07g_files_case (c : run7) (gw : git_world) (gs : git_sel) (tbl : list (list N * list N))
+           (ptext : option (list N)) (ok : bool) (impl : list (list N * list N)) (out : list N) : N :=
+  let H := t06_H tbl in
+  match run7g_prepare H c gw gs ptext with
+  | Err _ =>
+      let quiet := match out, impl with [], [] => true | _, _ => false end in
+      t06_bits (negb ok && quiet) true (t07_dom c) true (if quiet then 0 else 1)
+  | Ok st =>
+      match run7g_files H c gw gs ptext with
+      | Ok (mfiles, ann) =>
+          let bad := first_bad_file mfiles impl 0 in
+          let same := N.eqb bad 0 && Nat.eqb (length mfiles) (length impl) && text_eqb ann out in
+          t06_bits (ok && same) true (t07g_domain c st) (run_hyp (r7_base c) st)
+                   (if same then 0 else if N.eqb bad 0 then N.of_nat (length mfiles) + 1 else bad)
+      | Err _ => t06_bits (negb ok) true false (run_hyp (r7_base c) st) 1
+      end
+  end.
+Definition t07g_files_model (c : run7) (gw : git_world) (gs : git_sel) (tbl : list (list N * list N))
+           (ptext : option (list N)) : list (list N * list N) * list N :=
+  match run7g_files (t06_H tbl) c gw gs ptext with
   | Ok r => r
   | Err e => ([], [69; 114; 114; 32]%N ++ Codec.show_N e)
   end.
